@@ -53,6 +53,92 @@ func (c *vfCountingAuth) reached(username string) bool {
 	return c.seen[username] > 0
 }
 
+// vfC14Variants: everything about a request that the client chooses freely and that has nothing to
+// do with the password being guessed. The throttle must count the attempt whatever these say.
+var vfC14Variants = []struct {
+	name  string
+	dress func(r *http.Request)
+}{
+	{"plain", func(r *http.Request) {}},
+	{"host-noport", func(r *http.Request) { r.Host = "keymaster.example.com" }},
+	{"host-service-port", func(r *http.Request) { r.Host = "keymaster.example.com:443" }},
+	{"host-admin-port", func(r *http.Request) { r.Host = "keymaster.example.com:6920" }},
+	{"host-other-port", func(r *http.Request) { r.Host = "keymaster.example.com:8080" }},
+	{"host-v6-port", func(r *http.Request) { r.Host = "[::1]:6920" }},
+	{"host-localhost", func(r *http.Request) { r.Host = "localhost"; r.RemoteAddr = "127.0.0.1:40000" }},
+	{"browser", func(r *http.Request) {
+		r.Header.Set("Accept", "text/html,application/xhtml+xml")
+		r.Header.Set("User-Agent", "Mozilla/5.0 Chrome/120.0")
+	}},
+	{"cli", func(r *http.Request) { r.Header.Set("User-Agent", "keymaster/1.15.0"); r.Header.Set("Accept", "*/*") }},
+	{"forwarded", func(r *http.Request) {
+		r.Header.Set("X-Forwarded-For", "127.0.0.1")
+		r.Header.Set("X-Real-Ip", "10.0.0.1")
+		r.Header.Set("Forwarded", "for=127.0.0.1;host=keymaster.example.com:6920;proto=https")
+		r.RemoteAddr = "10.1.2.3:1234"
+	}},
+	{"query", func(r *http.Request) { r.URL.RawQuery = "port=6920&admin=1&nolimit=true" }},
+}
+
+// one password attempt through an entry point, dressed as variant `variant`; returns the status code
+func vfC14AttemptAs(state *RuntimeState, entry, user, pass string, variant int) int {
+	dress := vfC14Variants[variant%len(vfC14Variants)].dress
+	var rr *httptest.ResponseRecorder
+	var p interface{}
+	switch entry {
+	case "login":
+		form := url.Values{}
+		form.Set("username", user)
+		form.Set("password", pass)
+		req := vfFormPost("/api/v0/login", form)
+		req.Header.Set("Accept", "application/json")
+		dress(req)
+		rr, p = vfServe(state.loginHandler, req)
+	case "loginbasic":
+		req := httptest.NewRequest("POST", "/api/v0/login", nil)
+		req.SetBasicAuth(user, pass)
+		dress(req)
+		rr, p = vfServe(state.loginHandler, req)
+	case "certgen":
+		req := httptest.NewRequest("POST", "/certgen/"+user, nil)
+		req.SetBasicAuth(user, pass)
+		dress(req)
+		rr, p = vfServe(state.certGenHandler, req)
+	case "checkauth":
+		req := httptest.NewRequest("GET", "/whatever", nil)
+		req.SetBasicAuth(user, pass)
+		dress(req)
+		rr, p = vfServe(func(w http.ResponseWriter, r *http.Request) {
+			if _, err := state.checkAuth(w, r, AuthTypePassword); err == nil {
+				w.WriteHeader(http.StatusNoContent)
+			}
+		}, req)
+	case "routes":
+		// every handler main() registers, in turn: whichever of them looks at a password must do so
+		// behind the limiter
+		routes := vfRouteTable(state)
+		rt := routes[(variant/len(vfC14Variants))%len(routes)]
+		target := rt.path
+		if strings.HasSuffix(target, "/") && target != "/" {
+			target += user
+		}
+		method := "GET"
+		if (variant/len(vfC14Variants)/len(routes))%2 == 1 {
+			method = "POST"
+		}
+		req := httptest.NewRequest(method, target, nil)
+		req.SetBasicAuth(user, pass)
+		dress(req)
+		rr, p = vfServe(rt.h, req)
+	default:
+		return -2
+	}
+	if p != nil {
+		return -1
+	}
+	return rr.Code
+}
+
 // one password attempt through an entry point; returns the status code
 func vfC14Attempt(state *RuntimeState, entry, user, pass string) int {
 	var rr *httptest.ResponseRecorder
@@ -115,7 +201,7 @@ func vfC14RunBurst(state *RuntimeState, entry, mode string, n, pauseMs, serial i
 		if i%7 == 3 {
 			pass = "right-" + users[i]
 		}
-		codes[i] = vfC14Attempt(state, f[1], users[i], pass)
+		codes[i] = vfC14AttemptAs(state, f[1], users[i], pass, i+serial)
 	}
 	start := time.Now()
 	if f[2] == "conc" {
@@ -140,16 +226,24 @@ func vfC14RunBurst(state *RuntimeState, entry, mode string, n, pauseMs, serial i
 		}
 	}
 	elapsed := time.Since(start)
-	nBackend, n429, bad := 0, 0, 0
+	nBackend, n429, bad, other := 0, 0, 0, 0
 	hist := map[int]int{}
+	sent := make([]int, len(vfC14Variants))
+	got := make([]int, len(vfC14Variants))
 	for i := range users {
 		hist[codes[i]]++
 		r := backend.reached(users[i])
+		sent[(i+serial)%len(vfC14Variants)]++
+		if r {
+			got[(i+serial)%len(vfC14Variants)]++
+		}
 		switch {
 		case r && codes[i] != http.StatusTooManyRequests && codes[i] > 0:
 			nBackend++
 		case !r && codes[i] == http.StatusTooManyRequests:
 			n429++
+		case !r && entry == "routes":
+			other++ // this handler, for this request, did not get as far as a password
 		default:
 			bad++
 		}
@@ -159,8 +253,12 @@ func vfC14RunBurst(state *RuntimeState, entry, mode string, n, pauseMs, serial i
 		hs = append(hs, fmt.Sprintf("%d:%d", c, k))
 	}
 	sort.Strings(hs)
-	return fmt.Sprintf("backend=%d r429=%d bad=%d calls=%d elapsed_ns=%d codes=%s", nBackend, n429, bad,
-		backend.calls, elapsed.Nanoseconds(), strings.Join(hs, ","))
+	var vs []string
+	for v := range vfC14Variants {
+		vs = append(vs, fmt.Sprintf("%s:%d/%d", vfC14Variants[v].name, got[v], sent[v]))
+	}
+	return fmt.Sprintf("backend=%d r429=%d bad=%d other=%d calls=%d elapsed_ns=%d codes=%s reached_by_request_variant=%s", nBackend, n429, bad, other,
+		backend.calls, elapsed.Nanoseconds(), strings.Join(hs, ","), strings.Join(vs, ","))
 }
 
 // vfC14Cfg builds RuntimeStates the way the daemon does: a config file on disk, read by the real
@@ -576,6 +674,8 @@ func TestVerifC14(t *testing.T) {
 	defer cleanup()
 	state.Config.Base.AllowedAuthBackendsForWebUI = []string{proto.AuthTypePassword}
 	state.Config.Base.AllowedAuthBackendsForCerts = []string{proto.AuthTypePassword}
+	state.Config.Base.HttpAddress = ":443" // as in every generated configuration: the Host-port comparisons are live
+	state.Config.Base.AdminAddress = ":6920"
 	var lim *rate.Limiter
 	var limT int64
 	tv := &vfC14Totp{t: t, state: state, users: map[string]*vfC14User{}}
